@@ -133,6 +133,21 @@ def exact_points(ctx, ty, dtype):
     return ev
 
 
+class _MiniCtx:
+    def __init__(self, seed, quick):
+        import random
+        self.rng, self.quick, self.seed = random.Random(seed), quick, seed
+
+
+def _worker(args):
+    import torch
+    ty, dts, seed, quick, per = args
+    pypose()
+    dtype = torch.float64 if dts == "f64" else torch.float32
+    c = _MiniCtx(seed, quick)
+    return measure(c, ty, dtype, per), exact_points(c, ty, dtype)
+
+
 def band_key(e):
     return "eS=%d" % e["eS"]
 
@@ -176,9 +191,12 @@ def run(ctx):
             ctx.violation("design/%s" % r["violated"][0], "LieRegimes violates %s" % r["violated"])
     traces, etr = [], []
     worst = {}
-    for ty in L.TYPES:
-        for dtype in (torch.float64, torch.float32):
-            ev = measure(ctx, ty, dtype, 1 if q else 6)
+    import multiprocessing as mpc
+    jobs = [(ty, dts, ctx.seed * 1000 + 17 * i + j, q, 1 if q else 6) for i, ty in enumerate(L.TYPES) for j, dts in enumerate(("f64", "f32"))]
+    with mpc.get_context("fork").Pool(8) as pool:
+        results = pool.map(_worker, jobs)
+    for (ty, dts, _, _, _), (ev, xe) in zip(jobs, results):
+        if True:
             for e in ev:
                 ctx.cover("%s:%s:%s:%s:%s:%s:%s" % (ty, e["dt"], e["eT"], e["eS"], e["eP"], e["gT"], e["gS"]))
                 k = "%s/%s" % (ty, e["dt"])
@@ -189,13 +207,12 @@ def run(ctx):
                     w["trans_outside_band"] = max(w["trans_outside_band"], e["err_trans"])
             for i in range(0, len(ev), 1):
                 traces.append({"cfg": {"spec": "LieRegimesTrace"}, "ev": ev[i:i + 1]})
-            xe = exact_points(ctx, ty, dtype)
             if xe:
                 etr.append({"cfg": {"spec": "LieTrace", "ty": ty}, "ev": xe})
     ctx.extra["worst_err_eps_units"] = worst
     ctx.sample(traces[3]["ev"][0])
     ctx.sample(traces[-1]["ev"][0])
-    judge(ctx, traces, ctx.validate("LieRegimesTrace", "LieRegimesTrace.cfg", traces, "exp", chunk=4000, parallel=4))
+    judge(ctx, traces, ctx.validate("LieRegimesTrace", "LieRegimesTrace.cfg", traces, "exp", chunk=2500, parallel=8))
     judge(ctx, etr, ctx.validate("LieTrace", "LieTrace.cfg", etr, "expE"))
 
 
